@@ -90,6 +90,8 @@ func readCableLabsEbp(data []byte) (ebp *cableLabsEbp, err error) {
 	}
 
 	index := uint8(0)
+	// have reports whether n more bytes can be read at index
+	have := func(n int) bool { return int(index)+n <= len(data) }
 
 	ebp.DataFieldTag = data[index]
 	index += uint8(1)
@@ -111,11 +113,17 @@ func readCableLabsEbp(data []byte) (ebp *cableLabsEbp, err error) {
 	}
 
 	if ebp.ExtensionFlag() {
+		if !have(1) {
+			return nil, gots.ErrInvalidEBPLength
+		}
 		ebp.ExtensionFlags = data[index]
 		index += uint8(1)
 	}
 
 	if ebp.SapFlag() {
+		if !have(1) {
+			return nil, gots.ErrInvalidEBPLength
+		}
 		ebp.SapType = data[index]
 		index += uint8(1)
 	}
@@ -123,12 +131,18 @@ func readCableLabsEbp(data []byte) (ebp *cableLabsEbp, err error) {
 	if ebp.GroupingFlag() {
 		var group byte
 		var groupExtFlag bool
+		if !have(1) {
+			return nil, gots.ErrInvalidEBPLength
+		}
 		groupExtFlag = data[index]&0x80 != 0
 		group = data[index] & 0x7F
 		ebp.Grouping = append(ebp.Grouping, group)
 		index += uint8(1)
 
 		for groupExtFlag {
+			if !have(1) {
+				return nil, gots.ErrInvalidEBPLength
+			}
 			groupExtFlag = data[index]&0x80 != 0
 			group = data[index] & 0x7F
 			ebp.Grouping = append(ebp.Grouping, group)
@@ -137,6 +151,9 @@ func readCableLabsEbp(data []byte) (ebp *cableLabsEbp, err error) {
 	}
 
 	if ebp.TimeFlag() {
+		if !have(8) {
+			return nil, gots.ErrInvalidEBPLength
+		}
 		ebp.TimeSeconds = binary.BigEndian.Uint32(data[index : index+4])
 		index += uint8(4)
 
@@ -145,6 +162,9 @@ func readCableLabsEbp(data []byte) (ebp *cableLabsEbp, err error) {
 	}
 
 	if ebp.PartitionFlag() {
+		if !have(1) {
+			return nil, gots.ErrInvalidEBPLength
+		}
 		ebp.PartitionFlags = data[index]
 		index += uint8(1)
 	}
